@@ -28,7 +28,17 @@ use vsim::{apply_op, arb_sched_op, arb_small_cap, block_on_paused, FrameKind, Op
 const LANES: [&str; 7] = ["v0", "v1", "m0", "sup", "cmd", "ctl", "ghost"];
 const NREAL: usize = 6;
 const ALL_AGENT_LANES: [&str; 9] = ["v0", "v1", "vt", "m0", "m1", "mt", "sup", "cmd", "ctl"];
-const KNOWN: &str = ":lane-emptied-by-remove_remote";
+/// Laws that fail on a lane whose `forward` entry (with its reporter) may have been deleted by
+/// `remove_remote` share one signature (DESIGN §7-10).
+const KNOWN_SIG: &str = "sim:reporter-dropped-by-remove_remote";
+
+fn sig(base: &str, known: bool) -> String {
+    if known {
+        KNOWN_SIG.to_string()
+    } else {
+        base.to_string()
+    }
+}
 
 #[derive(Clone, Copy, Debug, PartialEq, Eq, Serialize, Deserialize)]
 pub enum PhaseKind {
@@ -114,7 +124,7 @@ pub fn arb_case(max_phases: usize, max_ops: usize) -> impl Strategy<Value = Case
     (
         any::<u64>(),
         prop_oneof![Just(2usize), Just(8), Just(64)],
-        prop_oneof![Just(200u64), Just(30_000)],
+        prop_oneof![1 => Just(200u64), 3 => Just(30_000u64)],
         progs,
         any::<bool>(),
     )
@@ -253,6 +263,9 @@ fn execute(case: &Case) -> Obs {
                 apply_op(&mut sim, &LANES, op).await;
             }
             sim.settle();
+            if std::env::var("VERIF_DUMP2").is_ok() {
+                eprintln!("after phase {}: frames {:?} partial {:?} outbox {:?} woken {} polls {} pending_att {}", pi, sim.remotes.iter().map(|r| r.frames.len()).collect::<Vec<_>>(), sim.remotes.iter().map(|r| r.partial_bytes()).collect::<Vec<_>>(), sim.remotes.iter().map(|r| r.outbox_len()).collect::<Vec<_>>(), sim.is_woken(), sim.polls, sim.pending_attachments());
+            }
             while dropped.len() < sim.remotes.len() {
                 dropped.push(false);
             }
@@ -347,6 +360,10 @@ pub fn check(case: &Case) -> Verdict {
     // lanes whose forward entry may have been deleted by remove_remote (known defect attribution):
     // a remote that was removed by the runtime after the harness dropped it had asked to link/sync it
     let mut tainted = vec![false; NREAL];
+    // lanes for which a link to a remote the runtime had already removed was observed (second known
+    // defect): the phantom link also inflates every later broadcast count of that lane
+    let mut phantom_lane = vec![false; NREAL];
+    const PHANTOM_SIG: &str = "sim:link-count-includes-removed-remote";
     let mut prev_frames: Vec<usize> = vec![];
     let mut prev_sent: Vec<usize> = vec![];
     for c in &obs.checkpoints {
@@ -383,10 +400,10 @@ pub fn check(case: &Case) -> Verdict {
         let mut fanout = vec![0u64; NREAL];
         for (name, counts) in &c.lanes {
             let li = lane_index(name);
-            let suffix = if li.map(|i| tainted[i]).unwrap_or(false) { KNOWN } else { "" };
+            let known = li.map(|i| tainted[i]).unwrap_or(false);
             let Some(counts) = counts else {
                 v.fail(
-                    format!("sim:lane-reader-dead{}", suffix),
+                    sig("sim:lane-reader-dead", known),
                     format!("phase {}: the agent is running but the reader of lane {} is invalid", c.phase, name),
                 );
                 continue;
@@ -426,10 +443,15 @@ pub fn check(case: &Case) -> Verdict {
             hi_total += hi;
             if counts.links < lo || counts.links > hi {
                 let phantom = counts.links > hi && c.completed.iter().any(|x| *x);
+                if phantom {
+                    if let Some(i) = li {
+                        phantom_lane[i] = true;
+                    }
+                }
                 let sig = if phantom {
-                    "sim:lane-link-count:more-than-linked-after-remote-removed".to_string()
+                    "sim:link-count-includes-removed-remote".to_string()
                 } else {
-                    format!("sim:lane-link-count{}", suffix)
+                    sig("sim:lane-link-count", known)
                 };
                 v.fail(
                     sig,
@@ -445,7 +467,7 @@ pub fn check(case: &Case) -> Verdict {
                 let phantom = agg.links > hi_total && c.completed.iter().any(|x| *x);
                 v.fail(
                     if phantom {
-                        "sim:agg-link-count:more-than-linked-after-remote-removed".to_string()
+                        "sim:link-count-includes-removed-remote".to_string()
                     } else {
                         "sim:agg-link-count".to_string()
                     },
@@ -501,7 +523,14 @@ pub fn check(case: &Case) -> Verdict {
                 }
                 continue;
             };
-            let suffix = if tainted[li] { KNOWN } else { "" };
+            let known = tainted[li];
+            let sig = |base: &str, known: bool| -> String {
+                if phantom_lane[li] {
+                    PHANTOM_SIG.to_string()
+                } else {
+                    sig(base, known)
+                }
+            };
             // every event / synced frame a remote received in this phase was counted when it was
             // handed to the remote's queue
             let mut delivered = 0u64;
@@ -524,7 +553,7 @@ pub fn check(case: &Case) -> Verdict {
             }
             if counts.events < delivered {
                 v.fail(
-                    format!("sim:lane-event-count:fewer-than-delivered{}", suffix),
+                    sig("sim:lane-event-count:fewer-than-delivered", known),
                     format!("phase {} ({:?}): lane {} reports {} events but {} event/synced frames of that lane were delivered to remotes in this phase", c.phase, c.kind, name, counts.events, delivered),
                 );
             }
@@ -540,24 +569,31 @@ pub fn check(case: &Case) -> Verdict {
             if exact {
                 match c.kind {
                     PhaseKind::Links => {
-                        // only targeted responses: value 2 per sync, map entries+1, supply 1
+                        // only targeted responses: value 2 per sync, map entries+1, supply 1. A sync of a
+                        // remote the runtime has removed (pruned) by the end of the phase may or may not
+                        // have been answered while it was still attached: such answers go to no link.
                         let mut expect = 0u64;
+                        let mut expect_hi = 0u64;
                         for ri in 0..nrem {
                             for (lane, req, _, w) in &obs.remotes[ri].1[prev_sent[ri]..c.nsent[ri]] {
                                 if lane == name && matches!(req, Req::Sync) && w.is_some() {
-                                    expect += match li {
+                                    let k = match li {
                                         0 | 1 => 2,
                                         2 => m0_size_at(c.from) as u64 + 1,
                                         3 => 1,
                                         _ => 0,
                                     };
+                                    expect_hi += k;
+                                    if !c.completed[ri] {
+                                        expect += k;
+                                    }
                                 }
                             }
                         }
-                        if li <= 3 && counts.events != expect {
+                        if li <= 3 && (counts.events < expect || counts.events > expect_hi) {
                             v.fail(
-                                format!("sim:lane-event-count:sync-responses{}", suffix),
-                                format!("phase {} (links only): lane {} reports {} events, the sync requests of this phase produce exactly {} targeted responses", c.phase, name, counts.events, expect),
+                                sig("sim:lane-event-count:sync-responses", known),
+                                format!("phase {} (links only): lane {} reports {} events, the sync requests of this phase produce {}..={} targeted responses", c.phase, name, counts.events, expect, expect_hi),
                             );
                         }
                         if expect > 0 {
@@ -569,7 +605,7 @@ pub fn check(case: &Case) -> Verdict {
                         if n == 0 {
                             if counts.events != 0 {
                                 v.fail(
-                                    format!("sim:lane-event-count:no-links{}", suffix),
+                                    sig("sim:lane-event-count:no-links", known),
                                     format!("phase {} (events only): lane {} has no links but reports {} events", c.phase, name, counts.events),
                                 );
                             }
@@ -579,7 +615,7 @@ pub fn check(case: &Case) -> Verdict {
                             let lo_e = if li == 3 { produced_max } else { max_per_remote };
                             if !ok_div || e < lo_e || e > produced_max {
                                 v.fail(
-                                    format!("sim:lane-event-count:broadcast{}", suffix),
+                                    sig("sim:lane-event-count:broadcast", known),
                                     format!(
                                         "phase {} (events only, {} remotes linked throughout): lane {} reports {} events; it must be {} x E with {} <= E <= {} (E = standard events the lane produced)",
                                         c.phase, n, name, counts.events, n, lo_e, produced_max
@@ -601,7 +637,7 @@ pub fn check(case: &Case) -> Verdict {
                 let upper = produced_max * nrem as u64 + syncs * 6;
                 if counts.events > upper {
                     v.fail(
-                        format!("sim:lane-event-count:more-than-possible{}", suffix),
+                        sig("sim:lane-event-count:more-than-possible", known),
                         format!("phase {}: lane {} reports {} events, at most {} can have been sent to links", c.phase, name, counts.events, upper),
                     );
                 }
@@ -611,7 +647,7 @@ pub fn check(case: &Case) -> Verdict {
             if agg.events != ev_total {
                 let any_taint = tainted.iter().any(|t| *t);
                 v.fail(
-                    format!("sim:agg-event-count{}", if any_taint { KNOWN } else { "" }),
+                    if phantom_lane.iter().any(|p| *p) { PHANTOM_SIG.to_string() } else { sig("sim:agg-event-count", any_taint) },
                     format!("phase {}: the aggregate reports {} events, the lanes report {} in total", c.phase, agg.events, ev_total),
                 );
             }
